@@ -94,3 +94,66 @@ contract(
     },
     properties=["C19"],
 )
+
+
+# ---------------------------------------------------------------------------------------------------------------
+# filter_inventories (C19): the same statement for MyST's own inventory representation (TypedDicts read by literal key)
+fields(f"{M}:InventoryType", g_name="str", g_version="str", g_base_url="str | None",
+       g_objects="dict[str, dict[str, dict[str, InventoryItemType]]]")
+fields(f"{M}:InventoryItemType", g_loc="str", g_text="str | None")
+for _cls, _key, _ret in (("InventoryType", "objects", "dict[str, dict[str, dict[str, InventoryItemType]]]"), ("InventoryType", "name", "str"),
+                         ("InventoryType", "version", "str"), ("InventoryType", "base_url", "str | None"),
+                         ("InventoryItemType", "loc", "str"), ("InventoryItemType", "text", "str | None")):
+    contract(
+        f"ext:{_cls}.__getitem__[{_key}]",
+        types={"__params__": ["self", "key"], "self": _cls, "key": "str"},
+        requires=[], ensures=[f"result == self.g_{_key}"], returns=_ret, modifies=[], pure=True, trusted=True,
+    )
+from pyvc.spec import assumed  # noqa: E402
+
+assumed("InventoryType / InventoryItemType", "TypedDicts read by literal key: inv['objects'], inv['name'], inv['version'], inv['base_url'], "
+        "item['loc'], item['text'] are the fields of the record", "myst_parser")
+
+
+@spec
+def SelectedN(m, inventories, invs, domains, otypes, targets):
+    """m reports an entry that exists under inventories[inv]['objects'][domain][otype][name], all four filters accept it, and
+    the project data come from that inventory, the location and text from that entry."""
+    return (W(m.inv, invs) and W(m.domain, domains) and W(m.otype, otypes) and W(m.name, targets)
+            and m.inv in inventories
+            and m.domain in inventories[m.inv].g_objects
+            and m.otype in inventories[m.inv].g_objects[m.domain]
+            and m.name in inventories[m.inv].g_objects[m.domain][m.otype]
+            and m.project == inventories[m.inv].g_name and m.version == inventories[m.inv].g_version
+            and m.base_url == inventories[m.inv].g_base_url
+            and m.loc == inventories[m.inv].g_objects[m.domain][m.otype][m.name].g_loc
+            and m.text == inventories[m.inv].g_objects[m.domain][m.otype][m.name].g_text)
+
+
+SELN = "forall(0, len({ys}), lambda j: SelectedN({ys}[j], inventories, invs, domains, otypes, targets))"
+contract(
+    f"{M}:filter_inventories",
+    requires=[],
+    ensures=[SELN.format(ys="result")],
+    raises={},
+    modifies=["fresh"],
+    types={"inventories": "dict[str, InventoryType]"},
+    returns="list[InvMatch]",
+    opaque=["Rx"],
+    loops={
+        "for (inv_name, inv_data) in inventories.items()": dict(invariant=[SELN.format(ys="_yielded")]),
+        "for (domain_name, dom_data) in inv_data['objects'].items()": dict(invariant=[
+            SELN.format(ys="_yielded"), "inv_name in inventories", "inventories[inv_name] == inv_data", "W(inv_name, invs)",
+        ]),
+        "for (obj_type, obj_data) in dom_data.items()": dict(invariant=[
+            SELN.format(ys="_yielded"), "inv_name in inventories", "inventories[inv_name] == inv_data", "W(inv_name, invs)",
+            "W(domain_name, domains)", "domain_name in inv_data.g_objects",
+        ]),
+        "for (target, item_data) in obj_data.items()": dict(invariant=[
+            SELN.format(ys="_yielded"), "inv_name in inventories", "inventories[inv_name] == inv_data", "W(inv_name, invs)",
+            "W(domain_name, domains)", "domain_name in inv_data.g_objects",
+            "W(obj_type, otypes)", "obj_type in inv_data.g_objects[domain_name]",
+        ]),
+    },
+    properties=["C19"],
+)
